@@ -149,26 +149,14 @@ class OpAddNe(OpAdd):
         self, data: Union[MutableSequence[object], MutableMapping[str, object]]
     ) -> Union[MutableSequence[object], MutableMapping[str, object]]:
         """Apply this patch operation to _data_."""
-        parent, obj = self.path.resolve_parent(data)
-        # Insert a copy, so later operations can't modify this patch.
-        value = copy.deepcopy(self.value)
-        if parent is None:
-            # Replace the root object.
-            # The following op, if any, will raise a JSONPatchError if needed.
-            return value  # type: ignore
-
-        target = self.path.parts[-1]
-        if isinstance(parent, MutableSequence):
-            if obj is UNDEFINED:
-                parent.append(value)
-            else:
-                parent.insert(_array_index(target), value)
-        elif (
+        parent, _ = self.path.resolve_parent(data)
+        if (
             isinstance(parent, MutableMapping)
-            and _member_name(parent, target) not in parent
+            and _member_name(parent, self.path.parts[-1]) in parent
         ):
-            parent[_member_name(parent, target)] = value
-        return data
+            # The member exists. Leave it as it is.
+            return data
+        return super().apply(data)
 
 
 class OpAddAp(OpAdd):
